@@ -51,9 +51,11 @@ fn main() {
     }
     outside.push_str(rest);
     // any other std::sync / crossbeam use left would be invisible to loom
+    // (`std::thread::panicking()` is a question about the current thread, not a primitive)
+    let checked = out.replace("std::thread::panicking", "thread_panicking");
     for bad in ["std::sync", "crossbeam", "std::thread", "parking_lot"] {
         assert!(
-            !out.contains(bad),
+            !checked.contains(bad),
             "rewritten tempfilebuffer.rs still mentions `{}`",
             bad
         );
